@@ -81,7 +81,9 @@ def run(ctx):
         npos = 0
         for op in POSITIONS:
             b, e = roles.fn_of(op)
-            u = Unit(roles, b.key)
+            # the operator with its closures *and the crate's helper functions it calls* (a helper that parses, evaluates
+            # and tests an operand is part of the deciding position)
+            u = Unit(roles, b.key, extended=True, stop=[truthy.key] + sorted(fw))
             npos += 1
             sites = [s for s in u.calls(lambda c: c.get("key") in ok_keys)]
             ctx.check(len(sites) >= 1, "K1.shared", "%s (%s)" % (op, cfg),
@@ -104,6 +106,17 @@ def run(ctx):
                 ctx.check(tg <= {"EVAL"} and tg, "K1.tests-evaluated-value", "%s: truthiness of an evaluated value (%s, %s)" % (op, s.where(), cfg),
                           "the operator %r takes the truthiness of a value with provenance %s — not of the value the interpreter computes for that operand, so positions can disagree on the same expression" % (op, sorted(tg)),
                           where=s.where(), fn=s.body.key, nontrivial=True)
+            # a verdict is taken for the value at hand: it is not put into a map or list from which it could be handed
+            # out again for another value (a memo keyed by a lossy rendering of the value merges "1" and 1)
+            for s in sites:
+                d0 = s.term["dest"]["local"]
+                for bi2, t2 in s.body.calls():
+                    p2 = callee_path(t2) or ""
+                    if re.search(r"(HashMap|BTreeMap|HashSet|BTreeSet|Vec|VecDeque|IndexMap)(::)?<.*>::(insert|push|push_back|push_front|extend|entry)$|::(or_insert|or_insert_with)$", p2):
+                        for a2 in t2["args"][1:]:
+                            ex2 = s.body.trace(a2)
+                            if expr_mentions(ex2, lambda y: y[0] == "call" and len(y) > 3 and y[3] == s.bi and y[1] is not None and y[1].get("key") in ok_keys):
+                                ctx.fail("K1.verdict-stored", "%s|%s" % (op, p2.rsplit("::", 1)[1]), "the operator %r stores the truthiness verdict in a collection (%s): it can be handed out again for a different value" % (op, p2), where=s.body.where(bi2), fn=s.body.key)
             # result used
             for s in sites:
                 dest = s.term["dest"]["local"]
